@@ -628,6 +628,14 @@ func (w *World) applyContract(fr *Frame, st *State, ct *Contract, names []string
 			st.heap[k] = v
 		}
 		w.keepCaptured(st, pre, snap)
+		// "modifies all" beside named specification ghosts: those change too (havocAll leaves them alone)
+		for _, m := range ct.Modifies {
+			if m.Op == "id" {
+				if gk, ok := w.ghostKey(m.Name); ok {
+					w.havocKey(st, gk)
+				}
+			}
+		}
 	} else {
 		func() {
 			defer func() {
